@@ -176,14 +176,20 @@ func ShapesFor(f Field, c *Counter, gob bool) []Shaped {
 		w.SetUint(1 << 40)
 		one.SetUint(1)
 		two.SetUint(2)
-		return []Shaped{{"uint", v}, {"uint-big", w}, {"uint-one", one}, {"uint-two", two}}
+		// beyond 2^53: a reader or writer that goes through a float64 rounds it
+		exact := reflect.New(ft).Elem()
+		exact.SetUint(1<<53 + 1)
+		return []Shaped{{"uint", v}, {"uint-big", w}, {"uint-one", one}, {"uint-two", two}, {"uint-2^53+1", exact}}
 	case KInt:
 		p, n, one, mone := reflect.New(ft).Elem(), reflect.New(ft).Elem(), reflect.New(ft).Elem(), reflect.New(ft).Elem()
 		p.SetInt(7)
 		n.SetInt(-7)
 		one.SetInt(1)
 		mone.SetInt(-1)
-		return []Shaped{{"pos", p}, {"neg", n}, {"one", one}, {"minus-one", mone}}
+		exact, nexact := reflect.New(ft).Elem(), reflect.New(ft).Elem()
+		exact.SetInt(1<<53 + 1)
+		nexact.SetInt(-(1<<53 + 1))
+		return []Shaped{{"pos", p}, {"neg", n}, {"one", one}, {"minus-one", mone}, {"2^53+1", exact}, {"-(2^53+1)", nexact}}
 	case KFloat:
 		p, n, w, one, mone, small := reflect.New(ft).Elem(), reflect.New(ft).Elem(), reflect.New(ft).Elem(), reflect.New(ft).Elem(), reflect.New(ft).Elem(), reflect.New(ft).Elem()
 		p.SetFloat(12.515625)
